@@ -236,3 +236,23 @@ def validate_batch(module, cfg, traces, *, shard=300, deque=True, env=None, work
                 }
     shutil.rmtree(wd, ignore_errors=True)
     return verdicts, stats
+
+
+def tlaps(module, timeout=900):
+    """Runs the TLA+ proof system on a module of /verif/spec (in a scratch copy: tlapm writes a cache next to the file).
+    Returns (all obligations proved, number of obligations, tail of the output)"""
+    import re as _re
+
+    wd = workdir("tlaps")
+    for f in SPEC.glob("*.tla"):
+        shutil.copy(f, wd / f.name)
+    try:
+        p = subprocess.run(["tlapm", "--toolbox", "0", "0", module], cwd=str(wd), capture_output=True, text=True, timeout=timeout)
+        out = p.stdout + p.stderr
+    except subprocess.TimeoutExpired:
+        out = "timeout"
+    finally:
+        pass
+    m = _re.search(r"All (\d+) obligations? proved", out)
+    shutil.rmtree(wd, ignore_errors=True)
+    return bool(m), int(m.group(1)) if m else 0, out[-600:]
